@@ -1,1 +1,47 @@
-// harnesses for vub_backend
+// Child module of vhost_user_backend::backend: the recording device backend used by the daemon harnesses.
+use super::*;
+use crate::verif as vgm;
+use crate::vring::verif as vr;
+use crate::vring::{VringMutex, VringRwLock};
+
+/// zero-sized recording backend over mutex-protected rings (record lives in the ghost statics)
+#[derive(Clone, Copy)]
+pub(crate) struct VB;
+/// the same over rwlock-protected rings
+#[derive(Clone, Copy)]
+pub(crate) struct VBR;
+
+macro_rules! impl_backend {
+    ($t:ty, $ring:ty, $idfn:path) => {
+        impl VhostUserBackend for $t {
+            type Bitmap = ();
+            type Vring = $ring;
+            fn num_queues(&self) -> usize { vgm::vg().num_queues }
+            fn max_queue_size(&self) -> usize { vgm::vg().max_queue_size }
+            fn features(&self) -> u64 { vgm::vg().features }
+            fn acked_features(&self, features: u64) { vgm::vg().acked = features; vgm::vg().acked_calls += 1; }
+            fn protocol_features(&self) -> VhostUserProtocolFeatures { VhostUserProtocolFeatures::from_bits_retain(vgm::vg().features.rotate_left(7)) }
+            fn reset_device(&self) { vgm::vg().reset_calls += 1; }
+            fn set_event_idx(&self, enabled: bool) { vgm::vg().event_idx = enabled; vgm::vg().event_idx_calls += 1; }
+            fn update_memory(&self, _mem: GM<()>) -> Result<()> { Ok(()) }
+            fn queues_per_thread(&self) -> Vec<u64> { vec![1] }
+            fn handle_event(&self, device_event: u16, _evset: EventSet, vrings: &[Self::Vring], thread_id: usize) -> Result<()> {
+                let g = vgm::vg();
+                g.he_calls += 1;
+                g.he_event = device_event;
+                g.he_thread = thread_id;
+                g.he_nvrings = vrings.len();
+                if (device_event as usize) < vrings.len() {
+                    g.he_ring_id = $idfn(&vrings[device_event as usize]);
+                    g.he_ring_active = vr::is_active(&vrings[device_event as usize]);
+                } else {
+                    g.he_ring_id = 0;
+                    g.he_ring_active = false;
+                }
+                Ok(())
+            }
+        }
+    };
+}
+impl_backend!(VB, VringMutex<GM<()>>, vr::ring_id_mutex);
+impl_backend!(VBR, VringRwLock<GM<()>>, vr::ring_id_rwlock);
